@@ -557,6 +557,10 @@ def general_program(draw, cfg, max_steps=30, extra=(), disable=()):
                     feats.add('align-on-aligned')
                 b.add({'t': 'align', 'e': None if p is None else b.lit(p)})
         elif choice == 'mute':
+            if not muted and d(st.integers(0, 3)) == 0:
+                # an #emit/#unmute with nothing muted changes nothing (the depth does not go below zero)
+                b.add({'t': 'unmute', 'kw': d(st.sampled_from(['emit', 'unmute']))})
+                feats.add('stray-unmute')
             b.add({'t': 'unmute' if muted else 'mute', 'kw': d(st.sampled_from(['emit', 'unmute'])) if muted else 'mute'})
             muted = not muted
             feats.add('muted')
